@@ -122,9 +122,9 @@ def evaluate(node: ast.AST, lookup, bound: dict | None = None):
                     elif isinstance(op, ast.GtE):
                         r = left >= right
                     elif isinstance(op, ast.In):
-                        r = left in _keys(right)
+                        r = (left in right) if isinstance(right, str) and isinstance(left, str) else left in _keys(right)   # str in str: substring
                     elif isinstance(op, ast.NotIn):
-                        r = left not in _keys(right)
+                        r = (left not in right) if isinstance(right, str) and isinstance(left, str) else left not in _keys(right)
                     else:
                         raise Unknown(ast.dump(op))
                 except TypeError as e:
